@@ -203,3 +203,133 @@ pub fn run_leg(ctx: &Ctx, rep: &mut Report, leg: &str, env_var: &str, args: &[&s
     let _ = std::fs::remove_file(&result_file);
     Some(r)
 }
+
+
+// ---------------------------------------------------------------------------------------------
+// coverage-guided workload leg (thorough tier): libFuzzer chooses inputs, the monitors' own oracles judge them
+// ---------------------------------------------------------------------------------------------
+
+fn hex(data: &[u8]) -> String {
+    data.iter().map(|b| format!("{:02x}", b)).collect()
+}
+
+pub fn unhex(s: &str) -> Vec<u8> {
+    (0..s.len() / 2).filter_map(|i| u8::from_str_radix(&s[2 * i..2 * i + 2], 16).ok()).collect()
+}
+
+/// judge raw fuzzer bytes in-process with the oracle bundle of `prop`
+pub fn judge_fuzz_bytes(prop: &str, data: &[u8]) -> Option<String> {
+    if data.len() < 3 {
+        return None;
+    }
+    let text = std::str::from_utf8(&data[2..]).ok()?;
+    let ls = super::LangSet::new();
+    super::fuzz_oracles::judge(&ls, prop, data[0], data[1], text)
+}
+
+pub fn fuzz_leg(ctx: &Ctx, rep: &mut Report, secs: u64) {
+    if let Ok(e) = std::env::var("T2N_LEG_FUZZ_ERROR") {
+        rep.inconclusive.push(format!("leg=fuzz reason={}", e));
+        return;
+    }
+    let bin = match std::env::var("T2N_LEG_FUZZ") {
+        Ok(b) if !b.is_empty() => b,
+        _ => {
+            rep.notes.push("leg fuzz not requested for this run".into());
+            return;
+        }
+    };
+    let base = format!("{}/harness/fuzz/work-{}-{}", ctx.verif_dir, ctx.prop, std::process::id());
+    let corpus = format!("{}/corpus", base);
+    let art = format!("{}/artifacts/", base);
+    let dict = format!("{}/dict", base);
+    let _ = std::fs::create_dir_all(&corpus);
+    let _ = std::fs::create_dir_all(&art);
+    if super::fuzz_oracles::worker_seeds(&[corpus.clone(), dict.clone(), "120".to_string()]) != 0 {
+        rep.inconclusive.push("leg=fuzz reason=cannot write the seed corpus".into());
+        return;
+    }
+    let mut c = Command::new(&bin);
+    c.arg(&corpus).args([
+        &format!("-dict={}", dict),
+        &format!("-max_total_time={}", secs),
+        &format!("-fork={}", ctx.threads.max(2)),
+        "-timeout=20",
+        "-rss_limit_mb=4096",
+        &format!("-artifact_prefix={}", art),
+        "-max_len=400",
+        &format!("-seed={}", ctx.seed.max(1)),
+    ]);
+    c.env("T2N_FUZZ_PROP", &ctx.prop).env("ASAN_OPTIONS", "detect_leaks=0:abort_on_error=1").current_dir(&base);
+    // stop as soon as one artifact exists (fork mode keeps going otherwise)
+    let art2 = art.clone();
+    let stop = std::sync::Arc::new(std::sync::atomic::AtomicBool::new(false));
+    let stop2 = stop.clone();
+    let watcher = std::thread::spawn(move || {
+        while !stop2.load(std::sync::atomic::Ordering::Relaxed) {
+            std::thread::sleep(Duration::from_millis(500));
+            if std::fs::read_dir(&art2).map(|d| d.count() > 0).unwrap_or(false) {
+                // give the other jobs a moment, then end the whole process group of the fuzzer
+                std::thread::sleep(Duration::from_millis(1500));
+                let _ = Command::new("pkill").args(["-f", &art2]).status();
+                break;
+            }
+        }
+    });
+    let r = run_child(&mut c, secs + 120);
+    stop.store(true, std::sync::atomic::Ordering::Relaxed);
+    let _ = watcher.join();
+    let err = String::from_utf8_lossy(&r.stderr).to_string();
+    // coverage figures from the last status line
+    if let Some(line) = err.lines().rev().find(|l| l.contains("cov: ") && l.starts_with('#')) {
+        let num = |key: &str| -> u64 { line.split(key).nth(1).and_then(|x| x.split_whitespace().next()).and_then(|x| x.parse().ok()).unwrap_or(0) };
+        let execs: u64 = line.trim_start_matches('#').split(':').next().and_then(|x| x.parse().ok()).unwrap_or(0);
+        rep.add("leg_fuzz_executions", execs);
+        rep.add("leg_fuzz_coverage_edges", num("cov: "));
+        rep.add("leg_fuzz_features", num("ft: "));
+        rep.add("leg_fuzz_corpus_inputs", num("corp: "));
+        rep.evaluations += execs;
+        rep.distinct_external += num("corp: ");
+    } else if !r.started {
+        rep.inconclusive.push(format!("leg=fuzz reason=cannot start {}", bin));
+    } else {
+        rep.notes.push("fuzz leg: no status line seen".into());
+    }
+    // artifacts
+    let mut files: Vec<std::path::PathBuf> = std::fs::read_dir(&art).map(|d| d.flatten().map(|e| e.path()).collect()).unwrap_or_default();
+    files.sort();
+    let mut reported = 0;
+    for f in files {
+        let name = f.file_name().map(|n| n.to_string_lossy().to_string()).unwrap_or_default();
+        let data = std::fs::read(&f).unwrap_or_default();
+        if name.starts_with("oom-") {
+            rep.inconclusive.push("leg=fuzz reason=an input exceeded the memory limit of the fuzzer job".into());
+            continue;
+        }
+        if name.starts_with("timeout-") && ctx.prop != "C03" {
+            rep.notes.push("fuzz leg: an input exceeded the 20 s per-input limit (not judged for this property)".into());
+            continue;
+        }
+        if reported >= 3 {
+            break;
+        }
+        let case = crate::jobj! {"kind" => "fuzz", "data_hex" => hex(&data), "text" => String::from_utf8_lossy(data.get(2..).unwrap_or(&[])).to_string(), "artifact" => name.as_str()};
+        let msg = std::panic::catch_unwind(|| judge_fuzz_bytes(&ctx.prop, &data)).unwrap_or(Some("the oracle bundle panicked while replaying the artifact".into()));
+        match msg {
+            Some(m) => {
+                reported += 1;
+                rep.violation(&format!("fuzz:{}", m.split("::").nth(1).unwrap_or("").chars().take(40).collect::<String>()), case, format!("[leg fuzz] {}", m));
+            }
+            None => {
+                if name.starts_with("crash-") || name.starts_with("timeout-") {
+                    // the fuzzer process died on this input but the in-process replay returns: a fatal signal (stack
+                    // overflow, sanitizer report) or a non-returning call in the sanitized build
+                    let tail: String = err.lines().filter(|l| l.contains("ERROR") || l.contains("overflow") || l.contains("SUMMARY")).take(3).collect::<Vec<_>>().join(" | ");
+                    reported += 1;
+                    rep.violation(&format!("fuzz-crash:{}", tail.chars().take(60).collect::<String>()), case, format!("[leg fuzz] the sanitized fuzz target died on this input ({}): {}", name, tail.chars().take(400).collect::<String>()));
+                }
+            }
+        }
+    }
+    let _ = std::fs::remove_dir_all(&base);
+}
